@@ -224,6 +224,14 @@ func (c *Ctx) Solve(timeoutMs int, par int, crossCheck bool) {
 			if r.status != "unsat" {
 				o.Output = truncate(r.out, 4000)
 			}
+			if r.status == "unknown" && o.Vacuity {
+				// reachability with the quantified assumptions dropped (they only restrict further;
+				// as a vacuity guard this still exposes contradictions among the ground facts)
+				r2 := runSolvers(c.QueryNoQuant(o), min(5000, timeoutMs), false, solvers[:1])
+				if r2.status == "sat" {
+					o.Status, o.Solver = "sat", r2.solver+" (ground part)"
+				}
+			}
 			if r.status == "unknown" && !o.Vacuity && !strings.Contains(o.goal.S, "(exists ") {
 				// look for a candidate counterexample without the quantified assumptions
 				r2 := runSolvers(c.QueryNoQuant(o), min(5000, timeoutMs), false, solvers[:1])
